@@ -1,6 +1,10 @@
 (** C16 — BanditScheduler keeps num_active emitters and selects them by UCB1.
     Only statements closed by [exact]; model in Model/Bandit.v (+ Model/Scheduler.v for the routing),
     proofs in Proofs/BanditProofs.v.
+    Model and statements describe the behaviour of ribs/schedulers/_bandit_scheduler.py AFTER fixes/F9.patch
+    (logarithm's argument clipped to 1): never-selected emitters rank ahead of every previously selected one
+    also while total success is 0, where the documented score is undefined (key [KUndef]).  The unfixed code
+    violated exactly that clause; see the Example C16_F9_prefix_unfixed_choice_rejected at the end.
 
     Vocabulary:
       valid_selection k kept keys chosen   (Model/Bandit.v) the decidable specification of a reselection:
@@ -252,6 +256,26 @@ Example C16_nonvacuous_terminated :
   new_active s rin2 ex_scores [true; false; false; true] = [true; false; false; true] /\
   new_active s rin2 ex_scores [false; false; true; true] = [true; false; true; false].
 Proof. vm_compute. repeat split; auto; try lia; discriminate. Qed.
+
+(** F9 (DESIGN.md section 6) -- the behaviour of the code BEFORE fixes/F9.patch, which this specification
+    rejects: pool 6, num_active 2, reselect all, nothing is ever inserted, so every score is undefined
+    (ln 0).  The unfixed code activated 0,1, then 4,5, then 4,5 again for ever.  The specification accepts
+    the second choice (4,5 had never been selected) and REJECTS the third (the never-selected 2,3 stay
+    inactive while the previously selected 4,5 are activated); the model's own [select] -- and the code
+    after the patch -- picks the never-selected 2,3. *)
+Example C16_F9_prefix_unfixed_choice_rejected :
+  let s0 := bandit_init (V := nat) (F := nat) 6 2 AllActive Batch false in
+  let none := fun _ : nat => @None Q in
+  let norestart := fun _ : nat => (-1)%Z in
+  let one := fun i : nat => [100 + i] in
+  let ops := [BAsk norestart none [] one; BTell (ex_tell (fun _ => 0));
+              BAsk norestart none [false; false; false; false; true; true] one; BTell (ex_tell (fun _ => 0))] in
+  let s := fst (bandit_run ex_nz s0 ops) in
+  active s = [false; false; false; false; true; true] /\ selection s = [1; 1; 0; 0; 1; 1] /\
+  success s = [0; 0; 0; 0; 0; 0] /\
+  valid_selection 2 (repeat false 6) (ucb_keys (selection s) none) [false; false; false; false; true; true] = false /\
+  new_active s norestart none [false; false; false; false; true; true] = [false; false; true; true; false; false].
+Proof. vm_compute. repeat split; reflexivity. Qed.
 
 Print Assumptions C16_reachable_Inv.
 Print Assumptions C16_num_active.
